@@ -112,7 +112,8 @@ Home(op) == CASE op \in PushOps -> "C01,C02"
               [] op \in {"eq", "ne", "lt", "le", "gt", "ge", "partial_cmp", "cmp", "hash", "debug", "eq_slice"} -> "C13"
               [] op \in {"iter", "iter_mut", "range", "range_mut", "iter_default", "iter_mut_default"} -> "C08"
               [] OTHER -> "C01"
-ViewHome(kind) == CASE kind = "drain" -> "C09" [] OTHER -> "C08"
+\* (C12: "turning a buffer into its owning iterator and collecting it returns the original elements in order")
+ViewHome(kind) == CASE kind = "drain" -> "C09" [] kind = "into" -> "C08,C12" [] OTHER -> "C08"
 CapOf(S, e) == IF e.h \in DOMAIN S.bufs THEN S.bufs[e.h].cap ELSE e.cap
 
 HomeE(S, e) == IF e.op \in ViewOps /\ e.v \in DOMAIN S.views THEN ViewHome(S.views[e.v].kind) ELSE Home(e.op)
